@@ -1514,6 +1514,87 @@ def gen(repo):
                  'with_high_tag', 'ptr_eq']
         s += translate_fns(tg_fns, order, emt, None) + "\n"
         files['TaggedW.v'] = s
+        # ---------------- ApiTagW.v : the tag / null / identity accessors of the four handle types, over TaggedW
+        try:
+            strong_src = rd('src/strong.rs')
+            weak_src = rd('src/weak.rs')
+            a = HEADER % "src/strong.rs, src/weak.rs (is_null / tag / with_tag / ptr_eq / as_ref of Rc, Snapshot, Weak, WeakSnapshot)"
+            a += "Require Import Params TaggedW.\n\n(* p, q: the pointer words held by the handle(s); k = log2 of the alignment of the pointee *)\n\n"
+            HANDLES = [('rc', strong_src, 'Rc'), ('snap', strong_src, 'Snapshot'), ('weak', weak_src, 'Weak'), ('wsnap', weak_src, 'WeakSnapshot')]
+            for hname, src, tyname in HANDLES:
+                # a handle type may have several inherent impl blocks: collect the functions of all of them
+                fns = {}
+                for mm in re.finditer(r"(?m)^impl\b([^{;]*)\{", src):
+                    hd = mm.group(1)
+                    if ' for ' in hd or not re.search(r"\s%s<[^{]*>\s*$" % tyname, hd):
+                        continue
+                    j = find_matching(src, mm.end() - 1)
+                    fns.update(get_fns(src[mm.end():j]))
+                for need in ('is_null', 'tag', 'with_tag', 'ptr_eq'):
+                    if need not in fns:
+                        raise TranslateError("%s::%s not found" % (hname, need))
+
+                def api_expr(src_e, cur, emx):
+                    t = src_e
+                    t = re.sub(r"\b(?:self|result)\s*\.\s*is_null\s*\(\s*\)", "PTR.is_null()", t)
+                    t = re.sub(r"\b(?:self|result)\s*\.\s*ptr\b", "PTR", t)
+                    t = re.sub(r"\bother\s*\.\s*ptr\b", "OPTR", t)
+                    env = {'PTR': 'Self', 'OPTR': 'Self', 'tag': 'usize', '$val:PTR': cur, '$val:OPTR': 'q'}
+                    v, _ = emx.emit(P(tokenize(t)).parse_expr(), env, None)
+                    return v
+
+                def api_body(body, emx):
+                    # a straight-line body over the one mutable field `ptr`: assignments (possibly under an `if` without
+                    # `else`), then the handle itself / Self::from_raw(E) / a plain expression
+                    t = _strip_macros(body.strip()[1:-1])
+                    t = re.sub(r"let\s+mut\s+(\w+)\s*=\s*self\s*;", lambda m_: "@ALIAS %s;" % m_.group(1), t)
+                    al = re.search(r"@ALIAS (\w+);", t)
+                    if al:
+                        t = t.replace(al.group(0), "")
+                        t = re.sub(r"\b%s\b" % al.group(1), "self", t)
+                    cur = 'p'
+                    rest = t.strip()
+                    while True:
+                        m1 = re.match(r"self\s*\.\s*ptr\s*=\s*([^;]+);", rest)
+                        m2 = re.match(r"if\s+([^{]+)\{\s*self\s*\.\s*ptr\s*=\s*([^;]+);\s*\}", rest)
+                        if m1:
+                            cur = api_expr(m1.group(1), cur, emx)
+                            rest = rest[m1.end():].strip()
+                        elif m2:
+                            c = api_expr(m2.group(1), cur, emx)
+                            v = api_expr(m2.group(2), cur, emx)
+                            cur = "(if %s then %s else %s)" % (c, v, cur)
+                            rest = rest[m2.end():].strip()
+                        else:
+                            break
+                    if rest == 'self':
+                        return cur
+                    m3 = re.fullmatch(r"Self::from_raw\((.*)\)", rest, re.S)
+                    if m3:
+                        return api_expr(m3.group(1), cur, emx)
+                    if ';' in rest or '{' in rest:
+                        raise TranslateError("%s: body has a shape the translator does not know: %s" % (hname, " ".join(rest.split())[:120]))
+                    return api_expr(rest, cur, emx)
+
+                emx = TaggedEmitter({'HIGH_TAG_WIDTH': 'u32'}, sigs, 'ptr', ['ptr'], extra_params=['k'], fn_prefix='t_')
+                emx.all_consts.update(emt.all_consts)
+                emx.bodies.update(tg_fns)
+                emx.defined = set(tg_fns)
+                emx.emitted = set(tg_fns)
+                a += "(* ---- %s *)\n" % hname
+                a += "Definition %s_is_null (k p : Z) : bool := %s.\n" % (hname, api_body(fns['is_null'][2], emx))
+                a += "Definition %s_tag (k p : Z) : Z := %s.\n" % (hname, api_body(fns['tag'][2], emx))
+                a += "Definition %s_with_tag (k p tag : Z) : Z := %s.\n" % (hname, api_body(fns['with_tag'][2], emx))
+                a += "Definition %s_ptr_eq (k p q : Z) : bool := %s.\n" % (hname, api_body(fns['ptr_eq'][2], emx))
+                if 'as_ref' in fns:
+                    mm = re.search(r"if\s+([^{]+)\{\s*None\s*\}", fns['as_ref'][2])
+                    if not mm:
+                        raise TranslateError("%s::as_ref: null test not found" % hname)
+                    a += "Definition %s_as_ref_is_none (k p : Z) : bool := %s.\n" % (hname, api_expr(mm.group(1), 'p', emx))
+                a += "\n"
+            files['ApiTagW.v'] = a
+        except TranslateError as ex:
+            failed['ApiTagW.v'] = str(ex)
     except TranslateError as ex:
         failed['TaggedW.v'] = str(ex)
     except (NameError, KeyError, UnboundLocalError) as ex:
